@@ -224,6 +224,11 @@ def install(rt: Runtime) -> Runtime:
 
     def elementwise(f2):
         def g(a, b, **kw):
+            if isinstance(a, Mat) or isinstance(b, Mat):
+                shape_of = a if isinstance(a, Mat) else b
+                ar = a.rows if isinstance(a, Mat) else [[a] * len(r) for r in shape_of.rows]
+                br = b.rows if isinstance(b, Mat) else [[b] * len(r) for r in shape_of.rows]
+                return Mat([[f2(x, y, **kw) for x, y in zip(r1, r2)] for r1, r2 in zip(ar, br)])
             if isinstance(a, Vec) or isinstance(b, Vec):
                 n = len(a.vals) if isinstance(a, Vec) else len(b.vals)
                 av = a.vals if isinstance(a, Vec) else [a] * n
@@ -243,8 +248,12 @@ def install(rt: Runtime) -> Runtime:
     ex["numpy.argmin"] = fn(lambda v: min(range(len(v.vals)), key=lambda i: v.vals[i]))
     ex["numpy.argmax"] = fn(lambda v: max(range(len(v.vals)), key=lambda i: v.vals[i]))
     ex["numpy.mean"] = fn(lambda v: sum(v.vals) / len(v.vals))
-    ex["numpy.any"] = fn(lambda v: any(v.vals if isinstance(v, Vec) else v))
-    ex["numpy.all"] = fn(lambda v: all(v.vals if isinstance(v, Vec) else v))
+    def flat(v):
+        if isinstance(v, Mat):
+            return [x for r in v.rows for x in r]
+        return v.vals if isinstance(v, Vec) else v
+    ex["numpy.any"] = fn(lambda v: any(flat(v)))
+    ex["numpy.all"] = fn(lambda v: all(flat(v)))
     ex["numpy.round"] = fn(lambda v, d=0: Vec([round(x, d) for x in v.vals]) if isinstance(v, Vec) else round(v, d))
     ex["numpy.unique"] = fn(lambda v: Vec(sorted(set(v.vals))))
     ex["numpy.flatnonzero"] = fn(lambda v: Vec([i for i, m in enumerate(v.vals) if m]))
@@ -258,6 +267,28 @@ def install(rt: Runtime) -> Runtime:
     ex["random.randint"] = fn(lambda a, b: a)
     ex["random.sample"] = fn(lambda seq, k: list(seq)[:k])
 
+    def np_searchsorted(a, v, side="left", sorter=None):
+        import bisect
+        av = a.vals if isinstance(a, Vec) else list(a)
+        f = bisect.bisect_left if side == "left" else bisect.bisect_right
+        if isinstance(v, Vec) or isinstance(v, list):
+            return Vec([f(av, x) for x in (v.vals if isinstance(v, Vec) else v)])
+        return f(av, v)
+    ex["numpy.searchsorted"] = fn(np_searchsorted)
+
+    def np_fill_diagonal(m, value, wrap=False):
+        if not isinstance(m, Mat) or getattr(m, "frozen", False):
+            raise Unsupported("fill_diagonal operand")
+        for i in range(min(len(m.rows), len(m.rows[0]) if m.rows else 0)):
+            m.rows[i][i] = value
+        return None
+    ex["numpy.fill_diagonal"] = fn(np_fill_diagonal)
+
+    def np_ix(*seqs):
+        if len(seqs) != 2:
+            raise Unsupported("ix_ with other than two sequences")
+        return ("ix_",) + tuple(list(q.vals) if isinstance(q, Vec) else list(q) for q in seqs)
+    ex["numpy.ix_"] = fn(np_ix)
     ex["numpy.array"] = fn(np_array)
     ex["numpy.min"] = fn(np_min)
     ex["numpy.amin"] = fn(np_min)
